@@ -107,6 +107,17 @@ def nodesOfFile (f : Json) : List Node :=
     | none => flat
   | .error _ => flat
 
+/-- machinery self-check: the flat node list (the harness's own recursive walk over the FULL tree) must be what the modelled
+    cursor walk yields over the shipped pruned tree (`C03.walk_pruned_tree` says it is, if the harness prunes as `TreeWalk.prune`) -/
+def treeConsistent (f : Json) : Bool :=
+  let flat := ((arr f "nodes").filterMap nodeOf).filter (fun n => n.kind != "md_html_comment")
+  match f.getObjVal? "tree" with
+  | .ok tj' =>
+    match treeOf tj' with
+    | some t => (TreeWalk.walk t).filter (fun n => flat.contains n) == flat
+    | none => false
+  | .error _ => true
+
 def handlePipeline (j : Json) : Json :=
   let files := arr j "files"
   let fileOf (p : Text) : Option Json := files.find? (fun f => strD f "path" = p)
@@ -136,6 +147,7 @@ def handlePipeline (j : Json) : Json :=
       | .ok (.obj kvs) => .ok (kvs.toList.map (fun (k, v) =>
           (k.toList, match v with | .arr a => a.toList.map lcOf | _ => [])))
       | _ => .ok []
+  if !(files.all treeConsistent) then Json.mkObj [("harness_tree_inconsistent", true)] else
   match diffR with
   | .error e => Json.mkObj [("ctx", Json.mkObj [("err", Json.arr #[Json.mkObj [("kind", e)]])]), ("exit", 1)]
   | .ok changes =>
